@@ -940,4 +940,156 @@ example : ∀ l ∈ leaves (.seq (.cons (.leaf (.float 0x3FF0000000000000)) .nil
 example : getAt (.seq (.cons (.seq (.cons (.leaf (.int 5)) (.cons (.leaf (.int 6)) .nil))) .nil)) [0, 1] = some (.int 6) := by
   decide
 
+/-! ## Third deepening round: conversion INTO the 8-bit and 4-bit float types
+
+`encF8 k` is the model of ml_dtypes' `T(double)` for FLOAT8E4M3FN / FLOAT8E4M3FNUZ / FLOAT8E5M2 /
+FLOAT8E5M2FNUZ / FLOAT8E8M0 / FLOAT4E2M1 (round to nearest even on `Nat` / `Int`, per-type
+overflow / infinity / NaN / signed-zero treatment), compared on every run with the installed
+ml_dtypes through `ir.tensor` on ALL 65,536 binary16 values per type; `decF8 k` is the VALUE of a
+bit pattern as the ONNX documentation defines it (compared with ml_dtypes' `float(pattern)`). -/
+
+/-- **C04_pytensor_f8_total**: for the six narrow float types the conversion is TOTAL on the
+    scalars ml_dtypes accepts (bool, an int inside the C long range, float: any of the 2^64 bit
+    patterns) and the element fits the BIT WIDTH of the type (8, and 4 for FLOAT4E2M1: the array
+    element is already the packed nibble, masking loses nothing); every other scalar (None,
+    complex, text, bytes, an int beyond 64 bits) raises `TypeError`; a Python float converts with
+    ONE rounding, an int through float32. -/
+theorem C04_pytensor_f8_total (k : F8) (l : Leaf) :
+    k.dtype.bitwidth = some k.bits ∧
+    (l.isReal64 = true → ∃ x, castLeaf k.dtype l = .ok x ∧ x < 2 ^ k.bits) ∧
+    (l.isReal64 = false → castLeaf k.dtype l = .err "TypeError") ∧
+    (∀ b, castLeaf k.dtype (.float b) = .ok (encF8 k (decode64 b))) ∧
+    (∀ i : Int, -(2 ^ 63 : Int) ≤ i → i < 2 ^ 63 →
+      castLeaf k.dtype (.int i) = .ok (encF8 k (decode32 (encodeF 8 23 (ofInt i))))) := by
+  refine ⟨by cases k <;> decide, fun h => ?_, fun h => ?_, fun b => ?_, fun i h1 h2 => ?_⟩
+  · obtain ⟨f, hf⟩ := (castF8_total k l).1 h
+    exact ⟨encF8 k f, by rw [castLeaf_f8, hf], encF8_lt_bits k f⟩
+  · rw [castLeaf_f8]; exact (castF8_total k l).2 h
+  · rw [castLeaf_f8]; rfl
+  · rw [castLeaf_f8]; simp only [castF8, h1, h2, and_self, if_true]
+
+/-- **C04_pytensor_f8_roundtrip**: the conversion is a left inverse of the value specification:
+    for EVERY bit pattern `p` of every narrow float type, converting the exact value of `p` gives
+    `p` back (the three NaNs per sign of FLOAT8E5M2 collapse into the quiet NaN) -- so the model's
+    bias, subnormal range, special values and signed zeros are those of the ONNX formats, every
+    representable value is a fixed point of the rounding, and every pattern except the
+    non-canonical FLOAT8E5M2 NaNs is reachable through `ir.tensor`. -/
+theorem C04_pytensor_f8_roundtrip (k : F8) (p : Nat) (hp : p < 2 ^ k.bits) :
+    encF8 k (decF8 k p) = canonF8 k p := by
+  revert p
+  cases k <;> decide +kernel
+
+/-- **C04_pytensor_f8_sign**: saturation versus NaN / infinity per type, for ALL inputs.
+    The signed types (E4M3FN, E5M2, E2M1) are sign-magnitude: the sign bit of a finite input is
+    copied and the magnitude is converted independently of it.  FLOAT8E5M2 never turns a finite
+    input into a NaN (overflow is infinity `0x7C`); FLOAT8E4M3FN turns overflow into its NaN
+    `0x7F`; FLOAT4E2M1 saturates (magnitude at most 7 = 6.0); the FNUZ types have no negative zero:
+    a negative input gives `0x80` (NaN) only by overflow, never as a rounded-to-zero value; E8M0
+    maps every zero, negative, infinite and NaN input to `0xFF`. -/
+theorem C04_pytensor_f8_sign (neg : Bool) (m : Nat) (e : Int) :
+    (encF8 .e4m3fn (.fin neg m e) = sgn8 neg + encF8 .e4m3fn (.fin false m e) ∧ encF8 .e4m3fn (.fin false m e) ≤ 0x7F) ∧
+    (encF8 .e5m2 (.fin neg m e) = sgn8 neg + encF8 .e5m2 (.fin false m e) ∧ encF8 .e5m2 (.fin false m e) ≤ 0x7C) ∧
+    (encF8 .e2m1 (.fin neg m e) = (if neg then 8 else 0) + encF8 .e2m1 (.fin false m e) ∧ encF8 .e2m1 (.fin false m e) ≤ 7) ∧
+    (encF8 .e4m3fnuz (.fin neg m e) = 0x80 ↔ roundU 3 (-10) m e > 0x7F) ∧
+    (encF8 .e5m2fnuz (.fin neg m e) = 0x80 ↔ roundU 2 (-17) m e > 0x7F) ∧
+    (encF8 .e4m3fnuz (.zero neg) = 0 ∧ encF8 .e5m2fnuz (.zero neg) = 0) ∧
+    (encF8 .e8m0 (.zero neg) = 0xFF ∧ encF8 .e8m0 (.fin true m e) = 0xFF ∧ encF8 .e8m0 (.inf neg) = 0xFF ∧
+      encF8 .e8m0 (.nan neg) = 0xFF) := by
+  refine ⟨⟨?_, ?_⟩, ⟨?_, ?_⟩, ⟨?_, ?_⟩, ?_, ?_, ⟨rfl, rfl⟩, ⟨rfl, rfl, rfl, rfl⟩⟩ <;> cases neg <;>
+    simp only [encF8, sgn8, Bool.false_eq_true, if_false, if_true, Nat.zero_add] <;>
+    (try (repeat' split)) <;> (try omega)
+
+/-- **C04_pytensor_f8_agree**: `ir.tensor(value, dtype=T)` for a narrow float type `T` and ANY
+    homogeneous nesting of bool / int64 / float scalars never raises and never leaves the model:
+    it returns the array-backed tensor that reports `T` and the discovered shape, whose elements
+    are bit patterns of `T` (below `2^bits`, so they ARE the logical elements: masking is the
+    identity), and that tensor is a legal representation -- it agrees with every other
+    representation of those elements (`C04_all_agree`). -/
+theorem C04_pytensor_f8_agree (k : F8) (v : PyVal) (dims : List Nat) (hs : npShape v = some dims)
+    (hr : (leaves v).all Leaf.isReal64 = true) :
+    ∃ elems, pyTensor v (some k.dtype) = .numeric k.dtype dims elems ∧ (∀ x ∈ elems, x < 2 ^ k.bits) ∧
+      obsBits k.bits elems = elems ∧
+      WF k.dtype dims k.bits elems ∧ Legal k.dtype dims k.bits elems (.array k.dtype dims elems) ∧
+      Agrees k.dtype dims k.bits elems (.array k.dtype dims elems) := by
+  obtain ⟨xs, hxs, hb⟩ := castAll_f8 k (leaves v) hr
+  have hpt : pyTensor v (some k.dtype) = .numeric k.dtype dims xs := by
+    have hm : maybeString v (some k.dtype) = none := by cases k <;> simp [maybeString, F8.dtype]
+    have hbuild : build v k.dtype = .numeric k.dtype dims xs := by simp [build, hs, hxs]
+    unfold pyTensor
+    rw [hm]
+    cases k <;> simpa [F8.dtype] using hbuild
+  have hobs : obsBits k.bits xs = xs := by
+    simp only [obsBits]
+    conv => rhs; rw [← List.map_id xs]
+    apply List.map_congr_left
+    intro x hx
+    exact Nat.mod_eq_of_lt (hb x hx)
+  have hbw : k.dtype.bitwidth = some k.bits := by cases k <;> decide
+  obtain ⟨hl, _⟩ := castAll_ok k.dtype (leaves v) xs hxs
+  have hu : ∀ e ∈ xs, e < 256 ^ npItemBytes k.dtype := by
+    intro e he
+    have h1 := hb e he
+    have h2 : 2 ^ k.bits ≤ 256 ^ npItemBytes k.dtype := by cases k <;> decide
+    omega
+  have wf : WF k.dtype dims k.bits xs := by
+    refine ⟨hbw, by rw [hl, leaves_length hs], hb⟩
+  have lg : Legal k.dtype dims k.bits xs (.array k.dtype dims xs) := by
+    have := Legal.array (d := k.dtype) (dims := dims) (bw := k.bits) xs hu rfl
+    rwa [hobs] at this
+  exact ⟨xs, hpt, hb, hobs, wf, lg, C04_field_agree wf lg⟩
+
+-- 1.0 in each type; 448 is the largest E4M3FN value, 464 ties to even (448), 465 overflows to NaN
+example : castLeaf .float8e4m3fn (.float 0x3FF0000000000000) = .ok 0x38 := by decide
+example : castLeaf .float8e4m3fn (.float 0x407D000000000000) = .ok 0x7E := by decide
+example : castLeaf .float8e4m3fn (.float 0x407D100000000000) = .ok 0x7F := by decide
+example : castLeaf .float8e5m2 (.float 0x7FF0000000000000) = .ok 0x7C := by decide
+example : castLeaf .float8e4m3fnuz (.float 0x8000000000000000) = .ok 0 := by decide
+example : castLeaf .float8e5m2fnuz (.float 0xFFF0000000000000) = .ok 0x80 := by decide
+example : castLeaf .float4e2m1 (.float 0x7FF0000000000000) = .ok 7 := by decide
+example : castLeaf .float4e2m1 (.float 0x3FD0000000000000) = .ok 0 := by decide   -- 0.25 ties to 0
+example : castLeaf .float8e8m0 (.float 0) = .ok 0xFF := by decide
+-- an int goes through float32: 2^40 + 2^39 - 1 rounds to 1.5 * 2^40 there and then up to 2^41
+example : castLeaf .float8e8m0 (.int (2 ^ 40 + 2 ^ 39 - 1)) = .ok 168 := by decide
+-- observation D384: 1.75 * 2^128 wraps to the pattern of 2^-127
+example : castLeaf .float8e8m0 (.float 0x47FC000000000000) = .ok 0 := by decide
+example : castLeaf .float8e5m2 .none = .err "TypeError" := by decide
+example : castLeaf .float .none = .ok 0x7FC00000 := by decide
+example : castLeaf .bool (.str "0") = .ok 1 := by decide
+-- the hypotheses of C04_pytensor_f8_agree are satisfiable
+example : (leaves (.seq (.cons (.leaf (.float 0x3FF0000000000000)) (.cons (.leaf (.int 3)) .nil)))).all Leaf.isReal64 = true := by
+  decide
+
+/-- **C04_ctor_accepts**: `Tensor(array, dtype=d)` validation (`_check_numpy_representation_type`).
+    Whenever the constructor ACCEPTS an array whose dtype is one of the 26 numpy / ml_dtypes dtypes
+    of the element-type table, the array's item size is the item size of `d`'s own numpy type --
+    so the reinterpreting `view` of `_maybe_view_np_array_with_ml_dtypes` keeps the element count
+    and the storage units, the tensor is the array-backed representation `Rep.array d dims units`,
+    which is LEGAL for every unit list of the right length (second part, with `C04_field_agree`: it
+    agrees with every other representation of those bits) -- and `d` is never UNDEFINED.  The
+    accepted pairs are decided by kernel evaluation over all 26 x 27 combinations. -/
+theorem C04_ctor_accepts :
+    (∀ p ∈ DType.npItemsizeTable, ∀ d ∈ DType.all, ctorAccepts p.1 d = true →
+      p.2 = npItemBytes d ∧ d ≠ .undefined ∧ (d.bitwidth.isSome ∨ d = .string)) ∧
+    (∀ (d : DType) (dims : List Nat) (bw : Nat) (units : List Nat), d.bitwidth = some bw →
+      units.length = prod dims → (∀ u ∈ units, u < 256 ^ npItemBytes d) →
+      Legal d dims bw (obsBits bw units) (.array d dims units) ∧
+      Agrees d dims bw (obsBits bw units) (.array d dims units)) := by
+  refine ⟨by decide +kernel, ?_⟩
+  intro d dims bw units hbw hl hu
+  have wf : WF d dims bw (obsBits bw units) := by
+    refine ⟨hbw, by simp [obsBits, hl], ?_⟩
+    intro x hx
+    simp only [obsBits, List.mem_map] at hx
+    obtain ⟨u, _, rfl⟩ := hx
+    exact Nat.mod_lt _ (Nat.two_pow_pos bw)
+  have lg : Legal d dims bw (obsBits bw units) (.array d dims units) := Legal.array units hu rfl
+  exact ⟨lg, C04_field_agree wf lg⟩
+
+-- the lenient cases: raw bits, and ANY 8-bit ml_dtypes float for any 8-bit float type
+example : ctorAccepts "uint8" .float8e5m2 = true := by decide
+example : ctorAccepts "float8_e5m2" .float8e4m3fn = true := by decide
+example : ctorAccepts "int8" .uint4 = false := by decide
+example : ctorAccepts "uint8" .bool = false := by decide
+example : ctorAccepts "float32" .int32 = false := by decide
+
 end IrVerif.PyTensor
